@@ -371,6 +371,9 @@ func (flogs *fileLogs) getWriteLog(topic string) (fl *fileLog, err error) {
 			return
 		}
 		filename := filepath.Join(flogs.path, topic)
+		if err = repairTornTail(filename); err != nil {
+			return
+		}
 		var f *os.File
 		f, err = os.OpenFile(filename, os.O_WRONLY|os.O_CREATE|os.O_APPEND|os.O_SYNC, 0755)
 		if err != nil {
@@ -380,6 +383,41 @@ func (flogs *fileLogs) getWriteLog(topic string) (fl *fileLog, err error) {
 		flogs.files[topic] = fl
 	}
 	return
+}
+
+// repairTornTail removes an incompletely written last record (e.g., server died mid-append)
+// from an existing log file so that records appended from now on are not hidden behind it.
+func repairTornTail(filename string) error {
+	f, err := os.OpenFile(filename, os.O_RDWR, 0755)
+	if err != nil {
+		if os.IsNotExist(err) {
+			return nil
+		}
+		return err
+	}
+	defer f.Close()
+	fi, err := f.Stat()
+	if err != nil {
+		return err
+	}
+	size := fi.Size()
+	var pos int64
+	hdr := make([]byte, 6)
+	for pos+6 <= size {
+		if _, err := f.ReadAt(hdr, pos); err != nil {
+			return err
+		}
+		next := pos + 6 + int64(binary.LittleEndian.Uint32(hdr[2:6]))
+		if next > size {
+			break
+		}
+		pos = next
+	}
+	if pos < size {
+		dvid.Criticalf("truncating incomplete last record of filelog %q: %d -> %d bytes\n", filename, size, pos)
+		return f.Truncate(pos)
+	}
+	return nil
 }
 
 func (flogs *fileLogs) closeWriteLog(topic string) error {
